@@ -882,6 +882,9 @@ class Executor:
             return
         if k == 'setdisc':
             e = self.read(st, fr, s[1])
+            if isinstance(e, Struct) and '__state' in e.fields:
+                e.fields['__state'] = s[2]          # state of an `async fn` body (coroutine lowered to a state machine)
+                return
             if not isinstance(e, Enum):
                 raise Unsupported('setdisc on non-enum')
             e.disc = s[2]
@@ -921,6 +924,8 @@ class Executor:
             e = self.read(st, fr, rv[1])
             ty = parse_type(self.dest_type(fr, dest) or 'isize')
             w, sg = (ty.n, ty.mut) if ty.kind == 'int' else (64, True)
+            if isinstance(e, Struct) and '__state' in e.fields:
+                return Int(z3.BitVecVal(e.fields['__state'], w), sg)
             if not isinstance(e, Enum):
                 raise Unsupported(f'discriminant of {type(e).__name__}')
             if isinstance(e.disc, int):
